@@ -10,6 +10,8 @@
    "hammer": one writer goroutine, several readers; [C14_hammer_ok]: every read equals the query's
             answer after SOME prefix of the writer's calls inside the read's window (a torn
             snapshot matches no prefix).
+   "nihammer": several goroutines NickInfo on one nick, two GetNick it; [C14_ni_ok]: every result is
+            ONE call's value, compatible with the stamps (necessary conditions of linearizability).
    [al_observe]: the same "alias" experiment run INSIDE the heap model (Model/TrackerAlias.v):
             the model's caller scribbles over everything reachable from every value it gets
             (operation results and sweep results, right after reading them back through the
@@ -52,6 +54,37 @@ Definition read_ok (sts : list tstate) (r : hread) : bool :=
              (take (S (r_hi r - r_lo r)) (drop (r_lo r) sts)).
 Definition C14_hammer_ok (me : name) (setup ws : list op) (reads : list hread) : bool :=
   forallb (read_ok (prefix_states (C14_conc_start me setup) ws)) reads.
+
+(* ---------- many writers on ONE nick ("nihammer") ---------- *)
+(* Every call is NickInfo n .. or GetNick n for one tracked nick n.  In EVERY sequential order
+   (Props/C14.v, C14_ni_sequential) a NickInfo call returns what it returns from the start
+   state — a snapshot carrying its own three strings — and a GetNick returns the value written
+   by the last NickInfo before it (or the start value).  Hence, if the timed history is
+   linearizable:
+     (a) every NickInfo result is its result from the start state;
+     (b) every GetNick result is the start value, and then no NickInfo had returned before the
+         read was invoked; or it is the value of ONE NickInfo call w that was invoked before the
+         read returned and is not certainly overwritten (no NickInfo w' with w returned before
+         w' was invoked and w' returned before the read was invoked).
+   These necessary conditions are the gate: a snapshot mixing the strings of two calls is no
+   call's value. *)
+Definition ni_shape (n : name) (o : op) : bool :=
+  match o with ONickInfo n' _ _ _ | OGetNick n' => bool_decide (n' = n) | _ => false end.
+Definition is_ni (o : op) : bool := match o with ONickInfo _ _ _ _ => true | _ => false end.
+Definition hc_before (a b : hcall) : bool := (LinCheck.h_ret a <? LinCheck.h_inv b).
+Definition C14_ni_ok (me : name) (setup : list op) (n : name) (h : list hcall) : bool :=
+  let s0 := C14_conc_start me setup in
+  let ws := List.filter (fun c : hcall => is_ni (LinCheck.h_op c)) h in
+  let table := map (fun w : hcall => (w, snd (sp_step_obs (fst (sp_step s0 (LinCheck.h_op w))) (OGetNick n)))) ws in
+  let init := snd (sp_step_obs s0 (OGetNick n)) in
+  forallb (fun c : hcall => ni_shape n (LinCheck.h_op c) && (LinCheck.h_inv c <? LinCheck.h_ret c)) h
+  && forallb (fun w : hcall => obs_eqb (snd (sp_step_obs s0 (LinCheck.h_op w))) (LinCheck.h_obs w)) ws
+  && forallb (fun g : hcall =>
+       if is_ni (LinCheck.h_op g) then true
+       else (obs_eqb init (LinCheck.h_obs g) && forallb (fun w' => negb (hc_before w' g)) ws)
+            || existsb (fun wr : hcall * list bytes =>
+                          obs_eqb (snd wr) (LinCheck.h_obs g) && negb (hc_before g (fst wr))
+                          && forallb (fun w' => negb (hc_before (fst wr) w' && hc_before w' g)) ws) table) h.
 
 (* ---------- the alias experiment inside the heap model ---------- *)
 Definition al_step_std := al_step enumA_std enumN_std privs_Copy.
